@@ -45,6 +45,7 @@ type yyLex struct {
 	error         bool       // set if an error has ocurred
 	errorString   string     // the string of the error
 	indentStack   []int      // indent stack to control INDENT / DEDENT tokens
+	altIndent     []int      // the same indents measured with a tab worth one space, to find inconsistent use of tabs
 	state         int        // current state of state machine
 	currentIndent string     // whitespace at start of current line
 	interactive   bool       // set if mode "single" reading interactive input
@@ -67,6 +68,7 @@ func NewLex(r io.Reader, filename string, mode py.CompileMode) (*yyLex, error) {
 		reader:      bufio.NewReader(r),
 		filename:    filename,
 		indentStack: []int{0},
+		altIndent:   []int{0},
 		state:       readString,
 	}
 	switch mode {
@@ -170,6 +172,17 @@ func countIndent(s string) int {
 	}
 	return indent
 }
+
+// As countIndent but a tab is worth one space
+//
+// Indentation is consistent if comparing two lines gives the same
+// answer whatever a tab is worth: it is enough to compare with tabs
+// worth 8 (countIndent) and worth 1
+func countAltIndent(s string) int {
+	return len(s)
+}
+
+const inconsistentTabs = "inconsistent use of tabs and spaces in indentation"
 
 var operators = map[string]int{
 	// 1 Character operators
@@ -371,6 +384,7 @@ func (x *yyLex) queueDedents() {
 		x.queue(DEDENT)
 	}
 	x.indentStack = x.indentStack[:1]
+	x.altIndent = x.altIndent[:1]
 }
 
 // The parser calls this method to get each new token.  This
@@ -436,12 +450,22 @@ func (x *yyLex) Lex(yylval *yySymType) (ret int) {
 			}
 			// See if indent has changed and issue INDENT / DEDENT
 			indent := countIndent(x.currentIndent)
+			alt := countAltIndent(x.currentIndent)
 			i := len(x.indentStack) - 1
 			indentStackTop := x.indentStack[i]
 			if indent == indentStackTop {
+				if alt != x.altIndent[i] {
+					x.SyntaxError(inconsistentTabs)
+					return eof
+				}
 				continue
 			} else if indent > indentStackTop {
+				if alt <= x.altIndent[i] {
+					x.SyntaxError(inconsistentTabs)
+					return eof
+				}
 				x.indentStack = append(x.indentStack, indent)
+				x.altIndent = append(x.altIndent, alt)
 				yylval.pos.ColOffset = 0 // Indents start at 0
 				return INDENT
 			} else {
@@ -454,7 +478,12 @@ func (x *yyLex) Lex(yylval *yySymType) (ret int) {
 				x.SyntaxError("Inconsistent indent")
 				return eof
 			foundIndent:
+				if alt != x.altIndent[i] {
+					x.SyntaxError(inconsistentTabs)
+					return eof
+				}
 				x.indentStack = x.indentStack[:i+1]
+				x.altIndent = x.altIndent[:i+1]
 				return x.dequeue()
 			}
 		case parseTokens:
